@@ -6,6 +6,7 @@ import (
 	"go/token"
 	"go/types"
 	"sort"
+	"strings"
 
 	"golang.org/x/tools/go/cfg"
 )
@@ -214,8 +215,11 @@ func checkGraphCaches(w *World, r *Report, ruleDirty, ruleDegrees, ruleCacheWrit
 			}
 			return
 		}
-		must := fl.Solve(Spec{Must: true, Node: func(n ast.Node, in Facts) ([]string, []string) { return gen(n) }})
-		may := fl.Solve(Spec{Must: false, Node: func(n ast.Node, in Facts) ([]string, []string) {
+		// private helpers are followed: what a helper recomputes or marks after its own changes counts
+		glob := globalPrefixes("mutated", "degrees", "dirty:", "clean:", "reset", "wrote:")
+		stop := func(h *FuncInfo) bool { return h == g.updateDegrees }
+		must := fl.Solve(Spec{Must: true, Global: glob, Stop: stop, Node: func(n ast.Node, in Facts) ([]string, []string) { return gen(n) }})
+		may := fl.Solve(Spec{Must: false, Global: glob, Stop: stop, Node: func(n ast.Node, in Facts) ([]string, []string) {
 			o, _ := gen(n)
 			return o, nil
 		}})
@@ -321,10 +325,7 @@ func ruleRollback(w *World, r *Report, rule string) {
 	r.Analysed(fi)
 	info := fi.Pkg.TypesInfo
 	// exists variables from `x, exists := g.nodes[k]` and creation sites
-	type lookup struct {
-		key     string
-		existed bool // the variable is true when the node existed before (false: true when it was created)
-	}
+	type lookup = nodeLookup
 	existsOf := map[types.Object]lookup{}
 	ast.Inspect(fi.Decl.Body, func(x ast.Node) bool {
 		if as, ok := x.(*ast.AssignStmt); ok && len(as.Lhs) == 2 && len(as.Rhs) == 1 {
@@ -431,6 +432,12 @@ func ruleRollback(w *World, r *Report, rule string) {
 				"on the rejection path delete(g.nodes, "+key+") is not restricted to nodes created by this call: a node that existed before (a placeholder other providers depend on, or the provider being replaced) is removed, so the graph is not left as it was")
 		}
 	}
+	// the rollback may be carried out by a private helper that is handed a record of what this
+	// call did (undo := addUndo{isNew: !exists, key: nodeKey, …}; g.rollbackAdd(&undo))
+	restoredInHelper := false
+	if nDel == 0 {
+		nDel, restoredInHelper = rollbackThroughRecord(w, r, rule, g, fi, fl, sol, existsOf2(existsOf))
+	}
 	if nDel == 0 {
 		r.Fail(rule, fi.Name()+"#rollback", fi.Decl.Pos(), "the rejection path of AddProvider removes nothing: a rejected provider stays in the graph")
 	}
@@ -447,6 +454,7 @@ func ruleRollback(w *World, r *Report, rule string) {
 			}
 		}
 	}
+	restored = restored || restoredInHelper
 	r.Check(restored, rule, fi.Name()+"#rollback-restore", fi.Decl.Pos(), true,
 		"on the rejection path a node that existed before gets its previous provider back",
 		"on the rejection path the previous provider of an existing node is not restored")
@@ -773,4 +781,203 @@ func controllingCondsInfo(info *types.Info, body *ast.BlockStmt, pos token.Pos) 
 		}
 	}
 	return conds, want
+}
+
+// nodeLookup: a bool variable bound to a lookup of key in the node table.
+type nodeLookup struct {
+	key     string
+	existed bool // the variable is true when the node existed before (false: true when it was created)
+}
+
+func existsOf2(m map[types.Object]nodeLookup) map[types.Object]nodeLookup { return m }
+
+// rollbackThroughRecord handles a rollback that a private helper performs from a
+// record (a local of a package struct type) the adder filled in: flag fields
+// initialised from a lookup's result, key fields holding the looked-up key, list
+// fields that only receive keys of nodes this call created.
+func rollbackThroughRecord(w *World, r *Report, rule string, g *graphRoles, fi *FuncInfo, fl *Flow, sol *Sol, existsOf map[types.Object]nodeLookup) (nDel int, restored bool) {
+	info := fi.Pkg.TypesInfo
+	type flag struct {
+		key         string
+		newWhenTrue bool
+	}
+	flags := map[*types.Var]flag{}
+	keyFields := map[*types.Var]string{}
+	var recObj types.Object
+	var recStruct *types.Struct
+	fieldVar := func(st *types.Struct, name string) *types.Var {
+		for i := 0; i < st.NumFields(); i++ {
+			if st.Field(i).Name() == name {
+				return st.Field(i)
+			}
+		}
+		return nil
+	}
+	lookupKeys := map[string]bool{}
+	for _, lk := range existsOf {
+		lookupKeys[lk.key] = true
+	}
+	ast.Inspect(fi.Decl.Body, func(x ast.Node) bool {
+		as, ok := x.(*ast.AssignStmt)
+		if !ok || len(as.Lhs) != 1 || len(as.Rhs) != 1 {
+			return true
+		}
+		cl := litOf(as.Rhs[0])
+		if cl == nil {
+			return true
+		}
+		tv, ok := info.Types[cl]
+		if !ok {
+			return true
+		}
+		n := namedOf(tv.Type)
+		st, isSt := tv.Type.Underlying().(*types.Struct)
+		if n == nil || !isSt || n.Obj().Pkg() != fi.Pkg.Types || keyTypeName(tv.Type) != "" || n.Obj().Name() == "Node" {
+			return true
+		}
+		recObj, recStruct = objOf(info, as.Lhs[0]), st
+		for name, v := range compositeFields(cl) {
+			fv := fieldVar(st, name)
+			if fv == nil {
+				continue
+			}
+			e, neg := unparen(v), false
+			if u, isU := e.(*ast.UnaryExpr); isU && u.Op == token.NOT {
+				e, neg = unparen(u.X), true
+			}
+			if lk, ok := existsOf[objOf(info, e)]; ok {
+				flags[fv] = flag{lk.key, neg == lk.existed}
+			}
+			if lookupKeys[exprStr(v)] {
+				keyFields[fv] = exprStr(v)
+			}
+		}
+		return true
+	})
+	if recObj == nil {
+		return 0, false
+	}
+	// list fields: rec.L = append(rec.L, K) only under new:K
+	lists, badLists := map[*types.Var]bool{}, map[*types.Var]bool{}
+	for _, n := range fl.Nodes() {
+		as, ok := n.(*ast.AssignStmt)
+		if !ok || len(as.Lhs) != 1 || len(as.Rhs) != 1 {
+			continue
+		}
+		fv := fieldOf(info, as.Lhs[0])
+		if fv == nil || objOf(info, selBase(as.Lhs[0])) != recObj {
+			continue
+		}
+		c, ok := unparen(as.Rhs[0]).(*ast.CallExpr)
+		if !ok || exprStr(c.Fun) != "append" || len(c.Args) != 2 || fieldOf(info, c.Args[0]) != fv {
+			continue
+		}
+		if sol.Before[n].Has("new:" + exprStr(c.Args[1])) {
+			lists[fv] = true
+		} else {
+			badLists[fv] = true
+		}
+	}
+	for fv := range badLists {
+		delete(lists, fv)
+	}
+	// the helper call on the rejection path
+	var helper *FuncInfo
+	var uParam types.Object
+	for _, n := range fl.Nodes() {
+		if !sol.Before[n].Has("rejected") {
+			continue
+		}
+		for _, c := range callsIn(n, false) {
+			cal := callee(info, c)
+			if cal == nil || cal.Exported() || w.Decls[cal] == nil {
+				continue
+			}
+			t := w.Decls[cal]
+			k := 0
+			for _, f := range t.Decl.Type.Params.List {
+				for _, nm := range f.Names {
+					if k < len(c.Args) {
+						a := unparen(c.Args[k])
+						if ue, isU := a.(*ast.UnaryExpr); isU && ue.Op == token.AND {
+							a = unparen(ue.X)
+						}
+						if objOf(info, a) == recObj {
+							helper, uParam = t, t.Pkg.TypesInfo.Defs[nm]
+						}
+					}
+					k++
+				}
+			}
+		}
+	}
+	if helper == nil {
+		return 0, false
+	}
+	r.Analysed(helper)
+	_ = recStruct
+	hinfo := helper.Pkg.TypesInfo
+	ofRec := func(e ast.Expr) *types.Var { // u.F
+		if fv := fieldOf(hinfo, e); fv != nil && objOf(hinfo, selBase(e)) == uParam {
+			return fv
+		}
+		return nil
+	}
+	hfl := w.FlowOf(helper)
+	hsol := hfl.Solve(Spec{Must: true, Edge: func(b *cfg.Block, i int, cond ast.Expr, in Facts) (gen, kill []string) {
+		if cond == nil {
+			return
+		}
+		c, neg := unparen(cond), false
+		if u, ok := c.(*ast.UnaryExpr); ok && u.Op == token.NOT {
+			c, neg = unparen(u.X), true
+		}
+		if fv := ofRec(c); fv != nil {
+			if fl2, ok := flags[fv]; ok {
+				isNew := ((i == 0) != neg) == fl2.newWhenTrue
+				if isNew {
+					gen = append(gen, "new:"+fl2.key)
+				} else {
+					gen = append(gen, "existed:"+fl2.key)
+				}
+			}
+		}
+		return
+	}})
+	for _, n := range hfl.Nodes() {
+		for _, c := range callsIn(n, false) {
+			id, ok := unparen(c.Fun).(*ast.Ident)
+			if !ok || id.Name != "delete" || len(c.Args) != 2 || fieldOf(hinfo, c.Args[0]) != g.nodes {
+				continue
+			}
+			nDel++
+			keyE := c.Args[1]
+			con := fmt.Sprintf("%s#rollback-delete:%s", fi.Name(), exprStr(keyE))
+			good, how := false, ""
+			if kf := ofRec(keyE); kf != nil {
+				if k, ok := keyFields[kf]; ok && hsol.Before[n].Has("new:"+k) {
+					good, how = true, "under the record's flag that says this call created the node"
+				}
+			}
+			for _, il := range iterLoopsIn(hinfo, helper.Decl.Body) {
+				if il.Elem != nil && objOf(hinfo, keyE) == il.Elem && isInside(c, il.Body) {
+					if lf := ofRec(il.Coll); lf != nil && lists[lf] {
+						good, how = true, "while ranging over "+exprStr(il.Coll)+", a list of the record that only receives keys of nodes this call created"
+					}
+				}
+			}
+			r.Check(good, rule, con, c.Pos(), true, "the rejected add deletes node "+exprStr(keyE)+" "+how,
+				"on the rejection path delete(g.nodes, "+exprStr(keyE)+") is not restricted to nodes created by this call: a node that existed before (a placeholder other providers depend on, or the provider being replaced) is removed, so the graph is not left as it was")
+		}
+		if as, ok := n.(*ast.AssignStmt); ok && len(as.Lhs) == 1 {
+			if fv := fieldOf(hinfo, as.Lhs[0]); fv != nil && fv.Name() == "Provider" {
+				for k := range hsol.Before[n] {
+					if strings.HasPrefix(k, "existed:") {
+						restored = true
+					}
+				}
+			}
+		}
+	}
+	return nDel, restored
 }
